@@ -116,6 +116,10 @@ fn main() {
             umverif::c20::run(&mut rep);
             rep.finish()
         }
+        "C14" => {
+            umverif::c14::run(&mut rep);
+            rep.finish()
+        }
         "C15" => {
             umverif::c15::run(&mut rep);
             rep.finish()
